@@ -802,3 +802,471 @@ ABSTRACT = {
     config_parse_option: {"gen": _abs_config_parsed, "raises": (H.ParseError, UnicodeDecodeError)},
     config_build: {"gen": _abs_bytes, "raises": (struct.error, ValueError, UnicodeEncodeError)},
 }
+
+
+# ============================================================================ SD message
+
+
+def parse_all_options(b):
+    out = []
+    while b:
+        o, b = option_parse(H.SOMEIPSDOption, b)
+        out.append(o)
+    return out
+
+
+def parse_all_entries(b, num_options):
+    out = []
+    while b:
+        e, b = entry_parse(H.SOMEIPSDEntry, b, num_options)
+        out.append(e)
+    return out
+
+
+def sd_split(buf):
+    """flags byte, entries array, options array and the rest, as the length fields say"""
+    if len(buf) < 12:
+        raise H.ParseError("short SD header")
+    el = rd32(buf, 4)
+    if len(buf) - 8 < el + 4:
+        raise H.ParseError("entries length too big")
+    ol = rd32(buf, 8 + el)
+    if len(buf) - 12 - el < ol:
+        raise H.ParseError("options length too big")
+    return buf[0], buf[8 : 8 + el], buf[12 + el : 12 + el + ol], buf[12 + el + ol :]
+
+
+def sd_header_from(flags, entries, options):
+    return H.SOMEIPSDHeader(
+        flag_reboot=flags >= 128,
+        flag_unicast=(flags // 64) % 2 == 1,
+        flags_unknown=flags % 64,
+        entries=tuple(entries),
+        options=tuple(options),
+    )
+
+
+def sd_parse(cls, buf):
+    flags, entries_buf, options_buf, rest = sd_split(buf)
+    options = parse_all_options(options_buf)
+    entries = parse_all_entries(entries_buf, len(options))
+    return sd_header_from(flags, entries, options), rest
+
+
+def sd_flags_byte(h):
+    """reboot 0x80, unicast 0x40, the six undefined bits as stored"""
+    return (128 if h.flag_reboot else 0) + (64 if h.flag_unicast else 0) + h.flags_unknown
+
+
+def enc_sd(h):
+    entries_buf = b"".join(e.build() for e in h.entries)
+    options_buf = b"".join(o.build() for o in h.options)
+    return u8(sd_flags_byte(h)) + b"\x00\x00\x00" + u32(len(entries_buf)) + entries_buf + u32(len(options_buf)) + options_buf
+
+
+def sd_build(self):
+    return enc_sd(self)
+
+
+CONTRACTS.update(
+    {
+        "someip.header.SOMEIPSDHeader.parse": sd_parse,
+        "someip.header.SOMEIPSDHeader.build": sd_build,
+    }
+)
+
+
+def _abs_sd_parsed(vc, name, cls, buf):
+    h = H.SOMEIPSDHeader(
+        entries=vc.opaque_seq(name + ".entries", "entry"),
+        options=vc.opaque_seq(name + ".options", "option"),
+        flag_reboot=vc.bool(name + ".flag_reboot"),
+        flag_unicast=vc.bool(name + ".flag_unicast"),
+        flags_unknown=vc.int(name + ".flags_unknown", 0, 63),
+    )
+    return h, vc.bytes(name + ".rest")
+
+
+ABSTRACT.update(
+    {
+        sd_parse: {"gen": _abs_sd_parsed, "raises": (H.ParseError, H.IncompleteReadError, UnicodeDecodeError)},
+    }
+)
+
+
+def _sdp_o_init(vc, v):
+    vc.stash("sdp.o.init", v)
+
+
+def _sdp_o_head(vc, v, entering):
+    vc.stash("sdp.o.head", v)
+    vc.stash("sdp.o.entering", entering)
+
+
+def _sdp_o_post(vc, v):
+    vc.stash("sdp.o.post", v)
+
+
+def _sdp_o_variant(vc, v):
+    return len(v["options_buffer"])
+
+
+def _sdp_e_init(vc, v):
+    vc.stash("sdp.e.init", v)
+
+
+def _sdp_e_head(vc, v, entering):
+    vc.stash("sdp.e.head", v)
+    vc.stash("sdp.e.entering", entering)
+
+
+def _sdp_e_post(vc, v):
+    vc.stash("sdp.e.post", v)
+
+
+def _sdp_e_variant(vc, v):
+    return len(v["entries_buffer"])
+
+
+LOOPS.update(
+    {
+        ("someip.header.SOMEIPSDHeader.parse", 0): {
+            "havoc": {"options_buffer": _gen_bytes, "options": _gen_symlist},
+            "init": _sdp_o_init,
+            "head": _sdp_o_head,
+            "post": _sdp_o_post,
+            "variant": _sdp_o_variant,
+        },
+        ("someip.header.SOMEIPSDHeader.parse", 1): {
+            "havoc": {"entries_buffer": _gen_bytes, "entries": _gen_symlist},
+            "init": _sdp_e_init,
+            "head": _sdp_e_head,
+            "post": _sdp_e_post,
+            "variant": _sdp_e_variant,
+        },
+    }
+)
+
+
+def ob_sd_parse_refines(vc):
+    """SOMEIPSDHeader.parse against sd_parse: the split of the buffer by the two length
+    fields, then for each of the two loops (init) it starts on exactly its array with no
+    element, (step) an arbitrary iteration consumes exactly one option / entry as the
+    element contract says (entries see the final number of options), strictly shrinking
+    the buffer, (exit) it ends only on an empty buffer; the result carries the flag bits,
+    all elements in order and the rest."""
+    buf = vc.bytes("buf", hint="sd")
+    o = vc.outcome(vc.body(H.SOMEIPSDHeader.parse), buf)
+    if vc.native:
+        vc.same_outcome(o, vc.outcome(sd_parse, H.SOMEIPSDHeader, buf), "SOMEIPSDHeader.parse.refines_whole")
+        return
+    split = vc.outcome(sd_split, buf)
+    oinit = vc.stashed("sdp.o.init")
+    if split.kind == "raise":
+        vc.cover("bad-lengths")
+        vc.check(oinit is None, "SOMEIPSDHeader.parse.no_loop_on_bad_lengths")
+        vc.same_outcome(o, split, "SOMEIPSDHeader.parse.split.error")
+        return
+    flags, entries_buf, options_buf, rest = split.value
+    vc.check(oinit is not None, "SOMEIPSDHeader.parse.reaches_the_options_loop")
+    if oinit is None:
+        return
+    vc.check_eq(oinit["options_buffer"], options_buf, "SOMEIPSDHeader.parse.options.init.buffer")
+    vc.check_eq(len(oinit["options"]), 0, "SOMEIPSDHeader.parse.options.init.empty")
+    vc.check_eq(oinit["entries_buffer"], entries_buf, "SOMEIPSDHeader.parse.entries_buffer_is_the_entries_array")
+    ohead = vc.stashed("sdp.o.head")
+    if vc.stashed("sdp.o.entering"):
+        exp = vc.outcome(option_parse, H.SOMEIPSDOption, ohead["options_buffer"])
+        if exp.kind == "ret":
+            vc.cover("option")
+            vc.check(o.kind == "cut", "SOMEIPSDHeader.parse.options.step.continues")
+            if o.kind == "cut":
+                post = vc.stashed("sdp.o.post")
+                vc.check_eq(vc.list_tail(post["options"]), [exp.value[0]], "SOMEIPSDHeader.parse.options.step.appends_the_option")
+                vc.check_eq(post["options_buffer"], exp.value[1], "SOMEIPSDHeader.parse.options.step.rest")
+        else:
+            vc.cover("option-error")
+            vc.same_outcome(o, exp, "SOMEIPSDHeader.parse.options.step.error")
+        return
+    vc.check_eq(len(ohead["options_buffer"]), 0, "SOMEIPSDHeader.parse.options.exit.on_empty_buffer")
+    einit = vc.stashed("sdp.e.init")
+    vc.check(einit is not None, "SOMEIPSDHeader.parse.reaches_the_entries_loop")
+    if einit is None:
+        return
+    vc.check_eq(einit["entries_buffer"], entries_buf, "SOMEIPSDHeader.parse.entries.init.buffer")
+    vc.check_eq(len(einit["entries"]), 0, "SOMEIPSDHeader.parse.entries.init.empty")
+    vc.check_eq(einit["options"], ohead["options"], "SOMEIPSDHeader.parse.entries.init.options_complete")
+    ehead = vc.stashed("sdp.e.head")
+    if vc.stashed("sdp.e.entering"):
+        exp = vc.outcome(entry_parse, H.SOMEIPSDEntry, ehead["entries_buffer"], len(ohead["options"]))
+        if exp.kind == "ret":
+            vc.cover("entry")
+            vc.check(o.kind == "cut", "SOMEIPSDHeader.parse.entries.step.continues")
+            if o.kind == "cut":
+                post = vc.stashed("sdp.e.post")
+                vc.check_eq(vc.list_tail(post["entries"]), [exp.value[0]], "SOMEIPSDHeader.parse.entries.step.appends_the_entry")
+                vc.check_eq(post["entries_buffer"], exp.value[1], "SOMEIPSDHeader.parse.entries.step.rest")
+                vc.check_eq(post["options"], ohead["options"], "SOMEIPSDHeader.parse.entries.step.options_untouched")
+        else:
+            vc.cover("entry-error")
+            vc.same_outcome(o, exp, "SOMEIPSDHeader.parse.entries.step.error")
+        return
+    vc.cover("exit")
+    vc.check_eq(len(ehead["entries_buffer"]), 0, "SOMEIPSDHeader.parse.entries.exit.on_empty_buffer")
+    vc.check(o.kind == "ret", "SOMEIPSDHeader.parse.exit.returns")
+    if o.kind == "ret":
+        exp_h = sd_header_from(flags, ehead["entries"], ohead["options"])
+        vc.check_eq(o.value[0], exp_h, "SOMEIPSDHeader.parse.exit.header")
+        vc.check_eq(o.value[1], rest, "SOMEIPSDHeader.parse.exit.rest")
+
+
+SD_OBLIGATIONS = [ob_sd_parse_refines]
+
+
+def gen_sd_header(vc, name):
+    """SD message as build() needs it: entries with assigned indexes, opaque options"""
+    return H.SOMEIPSDHeader(
+        entries=vc.seq(name + ".entries", gen_wire_entry),
+        options=vc.opaque_seq(name + ".options", "option"),
+        flag_reboot=vc.bool(name + ".flag_reboot"),
+        flag_unicast=vc.bool(name + ".flag_unicast"),
+        flags_unknown=vc.int(name + ".flags_unknown", 0, 63),
+    )
+
+
+def ob_sd_build_refines(vc):
+    h = gen_sd_header(vc, "h")
+    vc.same_outcome(vc.outcome(vc.body(H.SOMEIPSDHeader.build), h), vc.outcome(sd_build, h), "SOMEIPSDHeader.build.refines")
+
+
+def ob_sd_layout(vc):
+    """SD layout as read by an independent decoder: flags, three reserved bytes, the two
+    length-prefixed arrays in the order entries, options"""
+    h = gen_sd_header(vc, "h")
+    eb = b"".join(e.build() for e in h.entries)
+    ob = b"".join(o.build() for o in h.options)
+    vc.assume(len(eb) <= 0xFFFFFFFF)
+    vc.assume(len(ob) <= 0xFFFFFFFF)
+    b = enc_sd(h)
+    vc.check_eq(b[0] // 128, 1 if h.flag_reboot else 0, "sd.layout.reboot_flag_is_bit7")
+    vc.check_eq((b[0] // 64) % 2, 1 if h.flag_unicast else 0, "sd.layout.unicast_flag_is_bit6")
+    vc.check_eq(b[0] % 64, h.flags_unknown, "sd.layout.undefined_flag_bits")
+    vc.check_eq(b[1:4], b"\x00\x00\x00", "sd.layout.reserved")
+    vc.check_eq(((b[4] * 256 + b[5]) * 256 + b[6]) * 256 + b[7], len(eb), "sd.layout.entries_length@4")
+    vc.check_eq(b[8 : 8 + len(eb)], eb, "sd.layout.entries@8")
+    n = 8 + len(eb)
+    vc.check_eq(((b[n] * 256 + b[n + 1]) * 256 + b[n + 2]) * 256 + b[n + 3], len(ob), "sd.layout.options_length")
+    vc.check_eq(b[n + 4 :], ob, "sd.layout.options")
+    # and the decoder's split recovers exactly these arrays
+    rest = vc.bytes("rest")
+    sp = vc.outcome(sd_split, b + rest)
+    vc.cover("fits")
+    vc.check(sp.kind == "ret", "sd.split_of_built_message.succeeds")
+    if sp.kind == "ret":
+        vc.check_eq(sp.value[0], b[0], "sd.split_of_built_message.flags")
+        vc.check_eq(sp.value[1], eb, "sd.split_of_built_message.entries_array")
+        vc.check_eq(sp.value[2], ob, "sd.split_of_built_message.options_array")
+        vc.check_eq(sp.value[3], rest, "sd.split_of_built_message.rest")
+
+
+SD_OBLIGATIONS = [ob_sd_parse_refines, ob_sd_build_refines, ob_sd_layout]
+
+
+# ============================================================================ _find (option sharing)
+
+
+def _gen_int(vc, name):
+    return vc.int(name)
+
+
+def _find_outer_inv(vc, v):
+    return v["i"] >= v["n"] - 1
+
+
+def _find_outer_variant(vc, v):
+    return v["h"] - v["i"]
+
+
+def _find_inner_inv(vc, v):
+    """the last $k elements of the window ending at i match the last $k needle elements"""
+    hay, nd, i, n = v["haystack"], v["needle"], v["i"], v["n"]
+    return vc.forall(0, v["$k"], lambda m: hay[i - m] == nd[n - 1 - m])
+
+
+LOOPS.update(
+    {
+        ("someip.header._find", 0): {"havoc": {"i": _gen_int}, "inv": _find_outer_inv, "variant": _find_outer_variant},
+        ("someip.header._find", 1): {"inv": _find_inner_inv},
+    }
+)
+
+
+def ob_find_sound(vc):
+    """_find(haystack, needle) for sequences of arbitrary length over arbitrary elements:
+    no exception (every index is in range), it terminates (outer variant h - i; every skip
+    is at least 1), and a result other than None is the start of an occurrence:
+    0 <= r, r + len(needle) <= len(haystack), haystack[r : r + len(needle)] == needle."""
+    hay = vc.opaque_seq("haystack", "elem")
+    nd = vc.opaque_seq("needle", "elem")
+    o = vc.outcome(vc.body(H._find), hay, nd)
+    vc.check(o.kind != "raise", "_find.no_exception")
+    if o.kind == "ret" and o.value is not None:
+        vc.cover("found")
+        r = o.value
+        vc.check(r >= 0 and r + len(nd) <= len(hay), "_find.sound.window_inside_haystack")
+        vc.check(vc.forall(0, len(nd), lambda m: hay[r + m] == nd[m]), "_find.sound.occurrence")
+    if o.kind == "ret" and o.value is None:
+        vc.cover("not-found")
+
+
+FIND_OBLIGATIONS = [ob_find_sound]
+
+
+def find_spec(haystack, needle):
+    """carrier of _find's contract (a reference search; _find need not return the first
+    occurrence, and callers rely on soundness only)"""
+    h, n = len(haystack), len(needle)
+    for s in range(0, h - n + 1):
+        if all(haystack[s + m] == needle[m] for m in range(n)):
+            return s
+    return None
+
+
+def _find_post(vc, name, haystack, needle):
+    """what callers may assume about _find (proved by ob_find_sound): None, or the start
+    of an occurrence of needle in haystack"""
+    if vc.choice(name + ".found", (True, False)):
+        r = vc.int(name + ".index", 0, None)
+        vc.assume(r + len(needle) <= len(haystack))
+        vc.assume(vc.forall(0, len(needle), lambda m: haystack[r + m] == needle[m]))
+        return r
+    return None
+
+
+def assign_option_spec(entry_options, hdr_options):
+    if not entry_options:
+        return (0, 0)
+    oi = find_spec(hdr_options, entry_options)
+    if oi is None:
+        oi = len(hdr_options)
+        hdr_options.extend(entry_options)
+    return oi, len(entry_options)
+
+
+def _assign_option_post(vc, name, entry_options, hdr_options):
+    """what callers may assume about _assign_option (proved by ob_assign_option_post)"""
+    if not entry_options:
+        return (0, 0)
+    if vc.choice(name + ".shared", (True, False)):
+        oi = vc.int(name + ".oi", 0, None)
+        vc.assume(oi + len(entry_options) <= len(hdr_options))
+        vc.assume(vc.forall(0, len(entry_options), lambda m: hdr_options[oi + m] == entry_options[m]))
+    else:
+        oi = len(hdr_options)
+        hdr_options.extend(entry_options)
+    return (oi, len(entry_options))
+
+
+CONTRACTS.update(
+    {
+        "someip.header._find": find_spec,
+        "someip.header.SOMEIPSDEntry._assign_option": assign_option_spec,
+    }
+)
+ABSTRACT.update(
+    {
+        find_spec: {"gen": _find_post, "raises": ()},
+        assign_option_spec: {"gen": _assign_option_post, "raises": (), "effects": True},
+    }
+)
+
+
+def ob_assign_option_post(vc):
+    """_assign_option(run, hdr): (0, 0) and no change for an empty run; otherwise (oi, len(run))
+    such that afterwards hdr[oi : oi+len(run)] == run, and hdr only grew at its end (either
+    unchanged because the run is shared, or extended by exactly the run)"""
+    run = vc.opaque_seq("run", "option")
+    hdr = vc.sym_list("hdr")
+    before = tuple(hdr)
+    n0 = len(hdr)
+    o = vc.outcome(vc.body(H.SOMEIPSDEntry._assign_option), run, hdr)
+    vc.check(o.kind == "ret", "_assign_option.returns")
+    if o.kind != "ret":
+        return
+    oi, no = o.value
+    if len(run) == 0:
+        vc.cover("empty-run")
+        vc.check(oi == 0 and no == 0, "_assign_option.empty_run_is_0_0")
+        vc.check_eq(len(hdr), n0, "_assign_option.empty_run_leaves_array")
+        return
+    vc.cover("run")
+    vc.check_eq(no, len(run), "_assign_option.count_is_run_length")
+    vc.check(oi >= 0 and oi + no <= len(hdr), "_assign_option.run_inside_array")
+    vc.check(vc.forall(0, no, lambda m: hdr[oi + m] == run[m]), "_assign_option.array_holds_run_at_index")
+    vc.check(len(hdr) >= n0, "_assign_option.array_only_grows")
+    vc.check(vc.forall(0, n0, lambda m: hdr[m] == before[m]), "_assign_option.existing_options_keep_their_index")
+    vc.check(len(hdr) == n0 or (oi == n0 and len(hdr) == n0 + no), "_assign_option.appends_exactly_the_run_or_nothing")
+
+
+def ob_assign_then_resolve(vc):
+    """the step of 'every entry keeps exactly its own options': assigning indexes for an
+    entry against the shared array, letting later entries extend the array arbitrarily,
+    and resolving again yields the entry's two runs in their original order, all other
+    fields unchanged"""
+    from contracts.spec_config import gen_entry
+
+    e = gen_entry(vc, "e", resolved=True)
+    hdr = vc.sym_list("hdr")
+    o = vc.outcome(vc.body(H.SOMEIPSDEntry.assign_option_index), e, hdr)
+    vc.check(o.kind == "ret", "assign_option_index.returns")
+    if o.kind != "ret":
+        return
+    a = o.value
+    vc.check(not a.options_resolved, "assign_option_index.result_has_indexes")
+    vc.check_eq(len(a.options_1) + len(a.options_2), 0, "assign_option_index.result_carries_no_resolved_options")
+    hdr.extend(vc.opaque_seq("later", "option"))
+    r = a.resolve_options(tuple(hdr))
+    vc.check_eq(r.options_1, e.options_1, "assign_then_resolve.options_1")
+    vc.check_eq(r.options_2, e.options_2, "assign_then_resolve.options_2")
+    vc.check_eq(r, e, "assign_then_resolve.other_fields")
+    vc.check(a.num_options_1 == len(e.options_1) and a.num_options_2 == len(e.options_2), "assign_option_index.counts")
+
+
+FIND_OBLIGATIONS = [ob_find_sound, ob_assign_option_post, ob_assign_then_resolve]
+
+
+# ============================================================================ whole-message glue (bounded in the number of entries)
+
+
+def ob_sd_assign_resolve_bounded(vc):
+    """BOUNDED in the number of entries (0..2; run lengths, shared array and all field
+    values symbolic): assign_option_indexes followed by resolve_options returns the same
+    flags and the same entries in the same order, each with exactly its two runs, and
+    keeps the pre-existing options of the message at their indexes."""
+    from contracts.spec_config import gen_entry
+
+    n = vc.choice("n_entries", (0, 1, 2))
+    entries = tuple(gen_entry(vc, "e" + str(i), resolved=True) for i in range(n))
+    pre = vc.opaque_seq("pre_options", "option")
+    h = H.SOMEIPSDHeader(
+        entries=entries,
+        options=pre,
+        flag_reboot=vc.bool("flag_reboot"),
+        flag_unicast=vc.bool("flag_unicast"),
+        flags_unknown=vc.int("flags_unknown", 0, 63),
+    )
+    a = vc.body(H.SOMEIPSDHeader.assign_option_indexes)(h)
+    vc.check_eq((a.flag_reboot, a.flag_unicast, a.flags_unknown), (h.flag_reboot, h.flag_unicast, h.flags_unknown), "sd.assign.flags_kept")
+    vc.check(len(a.options) >= len(pre), "sd.assign.options_only_grow")
+    vc.check(vc.forall(0, len(pre), lambda m: a.options[m] == pre[m]), "sd.assign.existing_options_keep_their_index")
+    vc.check_eq(len(a.entries), n, "sd.assign.same_number_of_entries")
+    r = vc.body(H.SOMEIPSDHeader.resolve_options)(a)
+    vc.check_eq((r.flag_reboot, r.flag_unicast, r.flags_unknown), (h.flag_reboot, h.flag_unicast, h.flags_unknown), "sd.resolve.flags_kept")
+    vc.check_eq(len(r.entries), n, "sd.resolve.same_number_of_entries")
+    for i in range(n):
+        vc.check_eq(r.entries[i], entries[i], "sd.assign_resolve.entry_fields[" + str(i) + "]")
+        vc.check_eq(r.entries[i].options_1, entries[i].options_1, "sd.assign_resolve.options_1[" + str(i) + "]")
+        vc.check_eq(r.entries[i].options_2, entries[i].options_2, "sd.assign_resolve.options_2[" + str(i) + "]")
+
+
+GLUE_OBLIGATIONS = [ob_sd_assign_resolve_bounded]
